@@ -3,6 +3,7 @@ package static
 import (
 	"net/http"
 	"path"
+	"path/filepath"
 	"strings"
 
 	"verif/sim/internal/eng"
@@ -28,14 +29,14 @@ var indexes = []string{"", "home.htm", "index.html", "missing.html", "/home.htm"
 var relPaths = []string{
 	"/", "/index.html", "/a.txt", "/empty.txt", "/big.bin", "/sub", "/sub/", "/sub/index.html", "/sub/b.txt", "/noindex", "/noindex/", "/noindex/c.txt",
 	"/deep/x/y/z.txt", "/deep/x/y", "/deep", "/idxdir", "/idxdir/", "/home.htm", "/sp ace.txt", "/dot..file", "/.env", "/app.js", "/ity/page.html",
-	"/missing.txt", "/sub/missing", "/a.txt/", "/a.txt/x",
+	"/missing.txt", "/sub/missing", "/a.txt/", "/a.txt/x", "/devnull", "/public%2Fa.txt", "/%61.txt", "/sub%2Fb.txt", "/%2e%2e%2foutside%2fsecret.txt", "/secret.txt", "/outside/a.txt",
 	"/../outside/secret.txt", "/sub/../../outside/secret.txt", "/../../../outside/secret.txt", "/../pubX/look.txt", "/../secret.txt", "/..", "/../", "/../pub.env",
 	"/sub/../a.txt", "/sub/./b.txt", "/./a.txt", "//a.txt", "//sub", "//sub/", "/sub//b.txt", "///", "/a.txt\x00", "/\x00", "/sub/\x00/b.txt", "/..\\outside\\secret.txt",
 	"/%2e%2e/outside/secret.txt", "/...", "/sub/..", "/sub/../", "/deep/x/../../a.txt", "/deep/../../outside/a.txt", "/outside/secret.txt", "/pub/a.txt",
 }
 
 // Paths that only look like the prefix "/public".
-var lookAlikes = []string{"/x/../public/a.txt", "//public/a.txt", "/./public/a.txt", "/x/../public/sub", "/x/../public/sub/", "/public/../public/a.txt", "/x/../pre/fix/a.txt", "/pre//fix/a.txt", "/publicity/page.html", "/public.env", "/publicapp.js", "/publi", "/publica.txt", "/Public/a.txt", "/public../outside/secret.txt", "/publicindex.html", "/other/a.txt", "/a.txt", "/pre/fixa.txt", "/pre/a.txt", "/pre"}
+var lookAlikes = []string{"/public%2Fa.txt", "/publ%69c/a.txt", "/public%2f..%2fsecret.txt", "/pre%2Ffix/a.txt", "/x/../public/a.txt", "//public/a.txt", "/./public/a.txt", "/x/../public/sub", "/x/../public/sub/", "/public/../public/a.txt", "/x/../pre/fix/a.txt", "/pre//fix/a.txt", "/publicity/page.html", "/public.env", "/publicapp.js", "/publi", "/publica.txt", "/Public/a.txt", "/public../outside/secret.txt", "/publicindex.html", "/other/a.txt", "/a.txt", "/pre/fixa.txt", "/pre/a.txt", "/pre"}
 
 var methods = []string{"GET", "HEAD", "POST", "PUT", "DELETE", "get", "OPTIONS"}
 
@@ -81,14 +82,14 @@ func (Engine) Run(t *tape.Tape, o eng.Opts) *eng.Result {
 	d := getDisk()
 	d.reset()
 
-	backing := sw.Weighted(4, 2, 3) // 0 http.Dir behind FaultFS, 1 MapFS behind FaultFS, 2 Directory option
+	backing := sw.Weighted(4, 2, 3, 2) // 0 http.Dir behind FaultFS, 1 MapFS behind FaultFS, 2 Directory option, 3 default directory
 	faultFree := fg.Chance(350)
 	mutate := backing != 1 && !faultFree && sw.Intn(3) == 1
 	cfg := sched.Config{Sched: t.Stream("sched"), Time: t.Stream("time"), MaxSteps: world.StepCap(12000), KeepLog: o.Trace}
 	world.PickPolicy(sw, &cfg)
 
 	spec := &world.StaticSpec{Prefix: prefixes[gen.Weighted(3, 2, 3, 1, 1, 1)], Index: indexes[gen.Weighted(4, 2, 1, 1, 1)], ETag: gen.Intn(2) == 1,
-		Expires: gen.Intn(3) == 1, CacheControl: gen.Intn(3) == 1, Logging: gen.Intn(4) == 1, UseDirectory: backing == 2}
+		Expires: gen.Intn(3) == 1, CacheControl: gen.Intn(3) == 1, Logging: gen.Intn(4) == 1, UseDirectory: backing == 2, DefaultDir: backing == 3}
 	setup := &world.Setup{Env: 1, Static: spec}
 	setup.Mw = []world.HSpec{{Kind: world.HkToken}}
 	if gen.Intn(4) == 1 {
@@ -151,7 +152,7 @@ func (Engine) Run(t *tape.Tape, o eng.Opts) *eng.Result {
 			gen.End()
 			if !faultFree {
 				fg.Begin("fault")
-				if backing != 2 && fg.Chance(350) {
+				if backing < 2 && fg.Chance(350) {
 					kind := world.FsErr
 					keep := 0
 					if fg.Intn(3) == 1 {
@@ -197,7 +198,7 @@ func (Engine) Run(t *tape.Tape, o eng.Opts) *eng.Result {
 	for _, l := range reqs {
 		all = append(all, l...)
 	}
-	opts := world.BuildOpts{Dir: d.pub,
+	opts := world.BuildOpts{Dir: d.pub, OtherDir: filepath.Join(d.root, "outside"),
 		Expires: func() string { sched.Yield(world.SiteAct); return "Thu, 01 Jan 2026 00:00:00 GMT" },
 		Cache:   func() string { sched.Yield(world.SiteAct); return "max-age=60" }}
 	switch backing {
@@ -210,7 +211,7 @@ func (Engine) Run(t *tape.Tape, o eng.Opts) *eng.Result {
 	sr := w.RunTasks(reqs, cfg, res)
 	res.Requests = len(all)
 	res.Cases = len(all)
-	res.Probes["backing:"+[]string{"http.Dir+FaultFS", "MapFS+FaultFS", "Directory-option"}[backing]]++
+	res.Probes["backing:"+[]string{"http.Dir+FaultFS", "MapFS+FaultFS", "Directory-option", "default-directory"}[backing]]++
 
 	viol := func(rule, detail string) {
 		for _, v := range res.Violations {
@@ -424,6 +425,8 @@ func (Engine) Run(t *tape.Tape, o eng.Opts) *eng.Result {
 			isDir, _ := dirOK(d, want)
 			f := d.files[want]
 			switch {
+			case want == devEntry:
+				// a device: neither a regular file nor missing; the statement is silent about it
 			case want != "" && f == nil && !isDir:
 				viol("answered-missing-file", "Static answered "+itoa(staticStatus)+" for a path that names nothing in the directory\n  "+desc)
 			case isDir && !strings.HasSuffix(q.Path, "/") && (staticStatus < 300 || staticStatus >= 400):
@@ -463,7 +466,7 @@ func (Engine) Run(t *tape.Tape, o eng.Opts) *eng.Result {
 	res.Nontrivial = len(res.Sigs) > 0
 	if o.Trace {
 		res.Trace = append(res.Trace, "STATIC Prefix="+quote(spec.Prefix)+" Index="+quote(spec.Index)+" ETag="+b2s(spec.ETag)+" Expires="+b2s(spec.Expires)+" CacheControl="+b2s(spec.CacheControl)+
-			" backing="+[]string{"http.Dir+FaultFS", "MapFS+FaultFS", "Directory-option"}[backing])
+			" backing="+[]string{"http.Dir+FaultFS", "MapFS+FaultFS", "Directory-option", "default-directory"}[backing])
 		for ti, l := range reqs {
 			for _, q := range l {
 				ln := "task" + itoa(ti) + " " + q.Method + " " + quote(q.Path) + hdrs(q)
